@@ -565,3 +565,24 @@ contract(NS + 'Nasa.to_cti', P, label='balanced',
                             a_low=NpConst([3.5, 1e-3, -2e-7, 0., 0., -1e4, 5.]), a_high=NpConst([3.1, 2e-3, -1e-7, 0., 0., -9e3, 6.]),
                             elements=Const({'H': 2, 'O': 1}), n_sites=Const(None))),
          ensures=[('directive-balanced', 'spec.omkm.balanced(result)')], cross_check=False)
+
+# ---- coexisting phase objects built from the SAME species objects: editing one leaves the members of the other alone --------
+def shared_member(name, elements):
+    return Shared('member:' + name, member(name, elements))
+
+
+def phase_of(pname, names):
+    els = {'A': {'H': 2}, 'B': {'H': 1, 'O': 1}, 'C': {'N': 2}}
+    return New(CPH, name=Const(pname), species=ListOf([shared_member(n, els[n]) for n in names]))
+
+
+for op, args, view in (('remove_species', dict(name=Const('B')), ['A', 'C']), ('pop_species', dict(i=Const(0)), ['B', 'C']),
+                       ('clear_species', dict(), [])):
+    # `q` (a ghost, built first) and `self` hold the same species objects; their back references point to the phase built last
+    contract(CPH + '.' + op, P, label='species-shared-with-another-phase', args=dict(self=phase_of('scratch', 'ABC'), **args),
+             ghost=dict(q=phase_of('terrace', 'ABC')),
+             requires=['all(s.phase is self for s in q.species)'],
+             ensures=[('view', VIEW + ' == %r' % view),
+                      ('members-of-the-other-phase-untouched',
+                       '[s.name for s in q.species] == ["A", "B", "C"] and all(s.phase is self for s in q.species)')],
+             cross_check=False)
